@@ -223,8 +223,9 @@ func TestVerifC10APIChild(t *testing.T) {
 				fmt.Printf("VERIF layerexact=%s\n", strings.Join(exact, ","))
 			}
 		}
-	case "show":
-		// a model whose weights blob is the crafted file, installed directly in the store
+	case "show", "createfrom":
+		// a model whose weights blob is the crafted file, installed directly in the store (as a pull from a registry
+		// would leave it)
 		models := os.Getenv("OLLAMA_MODELS")
 		hex := strings.TrimPrefix(digest, "sha256:")
 		os.MkdirAll(filepath.Join(models, "blobs"), 0o755)
@@ -236,8 +237,16 @@ func TestVerifC10APIChild(t *testing.T) {
 		mp := filepath.Join(models, "manifests", "registry.ollama.ai", "library", "m")
 		os.MkdirAll(mp, 0o755)
 		os.WriteFile(filepath.Join(mp, "latest"), []byte(man), 0o644)
-		st, body := post("/api/show", map[string]any{"model": "m", "verbose": true})
-		fmt.Printf("VERIF show=%d error=%v\n", st, strings.Contains(body, "error"))
+		if mode == "show" {
+			st, body := post("/api/show", map[string]any{"model": "m", "verbose": true})
+			fmt.Printf("VERIF show=%d error=%v\n", st, strings.Contains(body, "error"))
+		} else {
+			// POST /api/create {"from": "m"}: server/model.go parseFromModel decodes every model layer of the installed
+			// model, then createModel reads its metadata through the typed accessors
+			stream := false
+			st, body := post("/api/create", map[string]any{"model": "m2", "from": "m", "stream": &stream})
+			fmt.Printf("VERIF createfrom=%d error=%v\n", st, strings.Contains(body, "error"))
+		}
 	}
 	// liveness probe
 	resp, err := http.Get(srv.URL + "/api/tags")
@@ -263,8 +272,14 @@ func TestVerifC10API(t *testing.T) {
 	var mu sync.Mutex
 	var wg sync.WaitGroup
 	sem := make(chan struct{}, 8)
+	// create: upload + POST /api/create {files}; show: POST /api/show on an installed model; createfrom: POST /api/create
+	// {from} on an installed model (server/model.go parseFromModel).  The C05 check needs the create mode only.
+	modes := os.Getenv("VERIF_C10_MODES")
+	if modes == "" {
+		modes = "create,show,createfrom"
+	}
 	for idx := range files {
-		for _, mode := range []string{"create", "show"} {
+		for _, mode := range strings.Split(modes, ",") {
 			wg.Add(1)
 			go func(idx int, mode string) {
 				defer wg.Done()
